@@ -147,6 +147,9 @@ def histStep (root : Str) (w : World) (st : Json) : World × Json :=
           else ({ w with fs := { (w.fs.set l (.file c)) with nodes := ((w.fs.set l (.file c)).nodes.filter fun n => n.1 ≠ bak) } }, Json.str "ok")
         | _, _ => (w, Json.str "io")
   | "reset" => ({ w with reg := [], poisoned := false }, Json.str "ok")
+  | "cd" => match w.fs.resolve p with
+    | none => (w, Json.str "io")
+    | some l => if w.fs.isDir l || l == [] then ({ w with fs := { w.fs with cwd := l } }, Json.str "ok") else (w, Json.str "io")
   | k => (w, Json.mkObj [("unknown_step", Json.str k)])
 
 def runHist (j : Json) : Json :=
